@@ -269,3 +269,228 @@ Theorem C12_domain_static :
     reachable_ne (fold_left do_action acts (init_st p fa dr lks cds nev)).
 Proof. exact static_reachable_ne. Qed.
 Print Assumptions C12_domain_static.
+
+(* ------------------------------------------------------------------------------------------
+   Appended: the last sentence of C12 as a HISTORY theorem over runs
+   ("A waiter is never overtaken by a waiter that was strictly less urgent during the whole
+     time both were waiting"): Sched/NoOvertakeRel.v (step relations), NoOvertakePass.v (every
+   scheduler action, by a pass through all primitives / frames / coro trees), NoOvertakeThms.v,
+   NoOvertakeExample.v.
+   A run: the action list [acts] from an initial state; T k = the state after the first k
+   actions.  Domain: run_ok (C13's side condition) and run_ne (no asynkit.eager() start is
+   executed; ADo release/wait/set-priority only while task 0 is not queued) - both hold for
+   every run of the static class of C12_domain_static (run_ok_static_init, run_ne_static_init).
+   Vocabulary (NoOvertakeThms.v):
+     queued_at s l f q   := exists e, In e (arr (lpq (getl s l))) /\ Z.to_nat (eobj e) = f /\ eseq e = q
+     waits_at s l f q    := queued_at s l f q /\ fdone s f = false            (still pending)
+     waits_through T l f q i j := forall k, i <= k <= j -> waits_at (T k) l f q
+     granted_at T l f k  := f is queued on l in T k and in T (S k), pending in T k and woken
+                            (holds a result) in T (S k): action k hands l over to that waiter
+     waiter_prio s l f   := wprio s (task_of_fut (getl s l) f): effective priority of the task
+                            recorded for waiter future f, 0 for a plain task
+     flat s l            := the tasks queued on l hold no PriorityLock. *)
+From Asynkit Require Import Sched.NoOvertakeRel Sched.NoOvertakePass Sched.NoOvertakeThms
+  Sched.NoOvertakeExample.
+
+(* One action, keys as stored.  If action k of the run hands lock l over to the waiter with
+   future fb while the waiter with future fa is queued and pending before and after the action,
+   then fb's entry is strictly (key, arrival number)-less than fa's entry, both taken from the
+   waiter heap in the state BEFORE the action.  No hypothesis on keys or priorities: this is
+   the heap-minimum property of _wake_up_first carried through the whole action (the wake-up
+   happens at an intermediate state; entries are neither added nor re-keyed before it). *)
+Theorem C12_no_overtake_keys :
+  forall prio_loop factor draws lks cds nev acts,
+    let s0 := init_st prio_loop factor draws lks cds nev in
+    let T := fun k => fold_left do_action (firstn k acts) s0 in
+    run_ok s0 acts -> run_ne s0 acts ->
+    forall l fa fb k ea eb, k < length acts ->
+      In ea (arr (lpq (getl (T k) l))) -> Z.to_nat (eobj ea) = fa ->
+      In eb (arr (lpq (getl (T k) l))) -> Z.to_nat (eobj eb) = fb ->
+      In fa (pq_objs (lpq (getl (T (S k)) l))) -> fdone (T (S k)) fa = false ->
+      (In fb (pq_objs (lpq (getl (T k) l))) /\ In fb (pq_objs (lpq (getl (T (S k)) l))) /\
+       fdone (T k) fb = false /\ woken (T (S k)) fb = true) ->
+      (epri eb < epri ea)%Q \/ ((epri eb == epri ea)%Q /\ (eseq eb < eseq ea)%Z).
+Proof.
+  intros prio_loop factor draws lks cds nev acts s0 T Hok Hne l fa fb k ea eb.
+  exact (no_overtake_keys prio_loop factor draws lks cds nev acts Hok Hne l fa fb k ea eb).
+Qed.
+Print Assumptions C12_no_overtake_keys.
+
+(* C12_no_overtake_step.  ... hence, when the keys of l's live entries are the current effective
+   priorities in the state before the action ([keyed], C12's domain; derived from reachability
+   when the queued tasks hold no PriorityLock, see C12_no_overtake_flat), the waiter that is
+   granted the lock was, at that moment, more urgent than every waiter that keeps waiting, or
+   equally urgent and earlier.  Contrapositive: a waiter that is strictly more urgent than b
+   (or equally urgent and earlier) and keeps waiting is not passed over in favour of b. *)
+Theorem C12_no_overtake_step :
+  forall prio_loop factor draws lks cds nev acts,
+    let s0 := init_st prio_loop factor draws lks cds nev in
+    let T := fun k => fold_left do_action (firstn k acts) s0 in
+    run_ok s0 acts -> run_ne s0 acts ->
+    forall l fa qa fb qb k, k < length acts -> keyed (T k) l ->
+      waits_at (T k) l fa qa -> waits_at (T (S k)) l fa qa ->
+      queued_at (T k) l fb qb -> granted_at T l fb k ->
+      (waiter_prio (T k) l fb < waiter_prio (T k) l fa)%Q \/
+      ((waiter_prio (T k) l fb == waiter_prio (T k) l fa)%Q /\ (qb < qa)%Z).
+Proof.
+  intros prio_loop factor draws lks cds nev acts s0 T Hok Hne l fa qa fb qb k.
+  exact (no_overtake_step prio_loop factor draws lks cds nev acts Hok Hne l fa qa fb qb k).
+Qed.
+Print Assumptions C12_no_overtake_step.
+
+(* C12_no_overtake, the history statement.  Let a (future fa, arrival number qa) wait on l in
+   every state of the window [i, j+1].  If b (future fb) is strictly less urgent than a (greater
+   effective-priority value) in every state of [i, j] in which b is queued on l, then none of the
+   actions i..j hands l over to b.  Hypotheses: run_ok, run_ne (the run), keyed in the states of
+   the window (domain condition: keys track effective priorities - it fails only after a
+   waiter's effective priority became LESS urgent while queued, i.e. after a cancellation /
+   release / set-priority among its own waiters: C12_keyed_not_invariant, O16).  Nothing is
+   assumed about acyclicity. *)
+Theorem C12_no_overtake :
+  forall prio_loop factor draws lks cds nev acts,
+    let s0 := init_st prio_loop factor draws lks cds nev in
+    let T := fun k => fold_left do_action (firstn k acts) s0 in
+    run_ok s0 acts -> run_ne s0 acts ->
+    forall l fa qa fb i j, j < length acts ->
+      (forall k, i <= k <= S j ->
+         (exists e, In e (arr (lpq (getl (T k) l))) /\ Z.to_nat (eobj e) = fa /\ eseq e = qa) /\
+         fdone (T k) fa = false) ->
+      (forall k, i <= k <= j -> keyed (T k) l) ->
+      (forall k, i <= k <= j -> In fb (pq_objs (lpq (getl (T k) l))) ->
+         (wprio (T k) (task_of_fut (getl (T k) l) fa) < wprio (T k) (task_of_fut (getl (T k) l) fb))%Q) ->
+      forall k, i <= k <= j ->
+        ~ (In fb (pq_objs (lpq (getl (T k) l))) /\ In fb (pq_objs (lpq (getl (T (S k)) l))) /\
+           fdone (T k) fb = false /\ woken (T (S k)) fb = true).
+Proof.
+  intros prio_loop factor draws lks cds nev acts s0 T Hok Hne l fa qa fb i j.
+  exact (no_overtake prio_loop factor draws lks cds nev acts Hok Hne l fa qa fb i j).
+Qed.
+Print Assumptions C12_no_overtake.
+
+(* ... with [keyed] derived from reachability: no hypothesis besides the run's side conditions
+   when the tasks queued on l hold no PriorityLock in the states of the window *)
+Theorem C12_no_overtake_flat :
+  forall prio_loop factor draws lks cds nev acts,
+    let s0 := init_st prio_loop factor draws lks cds nev in
+    let T := fun k => fold_left do_action (firstn k acts) s0 in
+    run_ok s0 acts -> run_ne s0 acts ->
+    forall l fa qa fb i j, j < length acts ->
+      waits_through T l fa qa i (S j) ->
+      (forall k, i <= k <= j -> forall g w, In (g, w) (lwt (getl (T k) l)) -> tholding (gett (T k) w) = []) ->
+      (forall k, i <= k <= j -> In fb (pq_objs (lpq (getl (T k) l))) ->
+         (waiter_prio (T k) l fa < waiter_prio (T k) l fb)%Q) ->
+      forall k, i <= k <= j -> ~ granted_at T l fb k.
+Proof.
+  intros prio_loop factor draws lks cds nev acts s0 T Hok Hne l fa qa fb i j.
+  exact (no_overtake_flat prio_loop factor draws lks cds nev acts Hok Hne l fa qa fb i j).
+Qed.
+Print Assumptions C12_no_overtake_flat.
+
+(* Among waiters that are equally urgent throughout, grants follow arrival order: if a arrived
+   before b (qa < qb) and their effective priorities are equal in every state of the window in
+   which b is queued, b is not granted l while a waits. *)
+Theorem C12_fifo_among_equals_history :
+  forall prio_loop factor draws lks cds nev acts,
+    let s0 := init_st prio_loop factor draws lks cds nev in
+    let T := fun k => fold_left do_action (firstn k acts) s0 in
+    run_ok s0 acts -> run_ne s0 acts ->
+    forall l fa qa fb qb i j, j < length acts ->
+      waits_through T l fa qa i (S j) ->
+      (forall k, i <= k <= j -> keyed (T k) l) ->
+      (qa < qb)%Z ->
+      (forall k, i <= k <= j -> queued_at (T k) l fb qb ->
+         (waiter_prio (T k) l fa == waiter_prio (T k) l fb)%Q) ->
+      forall k, i <= k <= j -> queued_at (T k) l fb qb -> ~ granted_at T l fb k.
+Proof.
+  intros prio_loop factor draws lks cds nev acts s0 T Hok Hne l fa qa fb qb i j.
+  exact (fifo_among_equals prio_loop factor draws lks cds nev acts Hok Hne l fa qa fb qb i j).
+Qed.
+Print Assumptions C12_fifo_among_equals_history.
+
+(* Plain asyncio tasks count as priority 0, so among plain tasks a PriorityLock is FIFO like
+   asyncio.Lock; no [keyed] hypothesis (nobody queued on l holds a PriorityLock). *)
+Theorem C12_fifo_plain_tasks_history :
+  forall prio_loop factor draws lks cds nev acts,
+    let s0 := init_st prio_loop factor draws lks cds nev in
+    let T := fun k => fold_left do_action (firstn k acts) s0 in
+    run_ok s0 acts -> run_ne s0 acts ->
+    forall l fa qa fb qb i j, j < length acts ->
+      waits_through T l fa qa i (S j) ->
+      (forall k, i <= k <= j -> forall g w, In (g, w) (lwt (getl (T k) l)) -> tholding (gett (T k) w) = []) ->
+      (qa < qb)%Z ->
+      (forall k, i <= k <= j ->
+         is_prio_task (T k) (task_of_fut (getl (T k) l) fa) = false /\
+         is_prio_task (T k) (task_of_fut (getl (T k) l) fb) = false) ->
+      forall k, i <= k <= j -> queued_at (T k) l fb qb -> ~ granted_at T l fb k.
+Proof.
+  intros prio_loop factor draws lks cds nev acts s0 T Hok Hne l fa qa fb qb i j.
+  exact (fifo_plain_tasks prio_loop factor draws lks cds nev acts Hok Hne l fa qa fb qb i j).
+Qed.
+Print Assumptions C12_fifo_plain_tasks_history.
+
+(* The granted waiter and ownership (C13_at_most_one_woken, C13_take_lock_only_when_free): after
+   the grant the lock has no owner, fb is the ONLY woken waiter queued on l (one hand-over in
+   flight), and _take_lock by whoever resumes that waiter succeeds and makes it the owner. *)
+Theorem C12_grant_in_flight :
+  forall prio_loop factor draws lks cds nev acts,
+    let s0 := init_st prio_loop factor draws lks cds nev in
+    let T := fun k => fold_left do_action (firstn k acts) s0 in
+    run_ok s0 acts -> run_ne s0 acts ->
+    forall l fb k, granted_at T l fb k ->
+      lowner (getl (T (S k)) l) = None /\
+      (forall g, In g (pq_objs (lpq (getl (T (S k)) l))) -> woken (T (S k)) g = true -> g = fb) /\
+      (forall t, exists s', take_lock (T (S k)) l t = inl s' /\ lowner (getl s' l) = Some t).
+Proof.
+  intros prio_loop factor draws lks cds nev acts s0 T Hok Hne l fb k.
+  exact (grant_in_flight prio_loop factor draws lks cds nev acts Hok l fb k).
+Qed.
+Print Assumptions C12_grant_in_flight.
+
+(* the domain is implied by the syntactic condition of C12_domain_static *)
+Theorem C12_no_overtake_domain_static :
+  forall p fa dr lks cds nev acts,
+    Forall act_static acts -> Forall act_static_ne acts ->
+    run_ok (init_st p fa dr lks cds nev) acts /\ run_ne (init_st p fa dr lks cds nev) acts.
+Proof.
+  intros. split; [now apply run_ok_static_init|now apply run_ne_static_init].
+Qed.
+Print Assumptions C12_no_overtake_domain_static.
+
+
+(* Non-vacuity (Sched/NoOvertakeExample.v; list loop, locks 0 and 1; tasks H=0 (priority 0, owner
+   of lock 0), B=1 (3), C=2 (-10), A=3 (5, owner of lock 1), X=4 (-5); waiter futures of lock 0:
+   B 4 (arrival 0), C 5 (arrival 1), A 6 (arrival 2)).  X starts waiting on lock 1 AFTER A queued
+   on lock 0 (action 11): A inherits -5 and its entry is re-keyed from 5 to -5, arrival 2 kept.
+   In the window of states 12..14 A waits and is strictly more urgent than B; [keyed] holds; the
+   release by H (action 13) happens inside the window and goes to C; by the theorem B is not
+   granted the lock in the window.  The next hand-over (action 14) goes to A before the earlier
+   arrival B, as C12_no_overtake_step requires (-5 < 3).  Service order C, A, B; arrival order
+   B, C, A.  (T is written with [tr s0 acts k] = fold_left do_action (firstn k acts) s0 of
+   NoOvertakeThms.v, by definition the same term as in the theorems above.) *)
+Theorem C12_no_overtake_example :
+  let T := tr (init_st false 0 [] [LPrio; LPrio] [] 0) nacts in
+  (run_ok (init_st false 0 [] [LPrio; LPrio] [] 0) nacts /\
+   run_ne (init_st false 0 [] [LPrio; LPrio] [] 0) nacts) /\
+  (arr (lpq (getl (T 11) 0)) = [mkE (-10)%Q 1 5; mkE 3%Q 0 4; mkE 5%Q 2 6] /\
+   arr (lpq (getl (T 12) 0)) = [mkE (-10)%Q 1 5; mkE 3%Q 0 4; mkE (-5)%Q 2 6] /\
+   lwt (getl (T 12) 0) = [(4, 1); (5, 2); (6, 3)] /\
+   tholding (gett (T 12) 3) = [1] /\ lwt (getl (T 12) 1) = [(8, 4)] /\
+   map (fun t => Qred (wprio (T 11) t)) [1; 2; 3] = [3%Q; (-10)%Q; 5%Q] /\
+   map (fun t => Qred (wprio (T 12) t)) [1; 2; 3] = [3%Q; (-10)%Q; (-5)%Q]) /\
+  (waits_through T 0 6 2 12 14 /\
+   (forall k, 12 <= k <= 13 -> keyed (T k) 0) /\
+   (forall k, 12 <= k <= 13 -> (waiter_prio (T k) 0 6 < waiter_prio (T k) 0 4)%Q)) /\
+  (granted_at T 0 5 13 /\ forall k, 12 <= k <= 13 -> ~ granted_at T 0 4 k) /\
+  (granted_at T 0 5 13 /\ granted_at T 0 6 14 /\ granted_at T 0 4 15).
+Proof.
+  cbv zeta.
+  split; [exact (conj nrun_ok nrun_ne)|].
+  split.
+  { destruct n_queue as (A & B & _ & _ & _ & C & D & E & F & G).
+    exact (conj A (conj B (conj C (conj D (conj E (conj F G)))))). }
+  split.
+  { split; [exact n_A_waits|]. split; [|exact n_urgency]. intros k Hk. apply n_keyed. lia. }
+  split; [exact (conj n_grant_C n_no_overtake)|].
+  destruct n_service_order as (A & B & C & _). exact (conj A (conj B C)).
+Qed.
+Print Assumptions C12_no_overtake_example.
